@@ -75,6 +75,11 @@ pub struct SimResolver {
     pub mutations: Cell<u64>,
     pub p_mutate: u64,
     pub max_ref_calls: u64,
+    /// a resolver that itself asks the namespace (classifying the records it hands out, as a real
+    /// record store would): per-mille probability per callback, and the namespace to ask
+    pub p_reenter: u64,
+    pub ns: Option<&'static Namespace<'static>>,
+    pub reentries: Cell<u64>,
 }
 
 
@@ -199,6 +204,19 @@ impl PathResolver for SimResolver {
 
     fn resolve_ref(&self, reference: &Ref) -> Option<Dict> {
         self.step();
+        if let Some(ns) = self.ns {
+            let enter = self.rng.borrow_mut().chance(self.p_reenter, 1000);
+            if enter {
+                // first-time symbols: each makes the namespace fill a cache entry, in whichever shard
+                // the name hashes to - if the evaluation still holds a guard there, this blocks for ever
+                let n0 = self.reentries.get();
+                for i in 0..200u64 {
+                    let sym = Symbol::from(format!("tag{}x{}", n0, i).as_str());
+                    let _ = ns.fits(&sym, &Symbol::from("entity"));
+                }
+                self.reentries.set(n0 + 1);
+            }
+        }
         self.lookup(reference)
     }
 }
@@ -310,6 +328,9 @@ pub fn run_case(case: &Case, ns: &'static Namespace<'static>) -> Outcome {
                 mutations: Cell::new(0),
                 p_mutate,
                 max_ref_calls: budget,
+                p_reenter: case.extra.get("p_reenter").and_then(|v| v.as_u64()).unwrap_or(0),
+                ns: Some(ns),
+                reentries: Cell::new(0),
             };
             let subjects: Vec<Dict> = store.values().cloned().collect();
             let (caught, _) = guarded(0, || -> Vec<bool> {
@@ -339,6 +360,7 @@ pub fn run_case(case: &Case, ns: &'static Namespace<'static>) -> Outcome {
             };
             out.steps = resolver.lookups.get();
             out.probe("fault:store-mutation-during-eval", resolver.mutations.get());
+            out.probe("fault:resolver-re-enters-the-namespace", resolver.reentries.get());
             out.probe("reach:resolver-callbacks", resolver.lookups.get());
             out.nontrivial = resolver.lookups.get() > 0;
             out.fingerprint = mix(&[fnv1a(rendered.as_bytes()), resolver.lookups.get(), resolver.mutations.get()]);
@@ -615,6 +637,7 @@ impl Engine for C09 {
             let mut c = Case::new("C09", "filter-eval", text.as_bytes());
             c.extra.insert("store_seed".into(), wl.next_u64().into());
             c.extra.insert("p_mutate".into(), (*wl.pick(&[0u64, 0, 100, 400, 900])).into());
+            c.extra.insert("p_reenter".into(), (*wl.pick(&[0u64, 0, 0, 30, 300])).into());
             c.origin = format!("{uname} sub={sub}");
             c
         }))
